@@ -301,10 +301,13 @@ pub fn run(seed: u64, n: usize, tier: &str, w: &mut dyn std::io::Write) {
         reqs.push((k, Some("  \t".into()), T::some(T::C("TBlank", vec![])), "blank"));
         reqs.push((k, Some(r.pick(&["abc", "-1", "1.5", "0x10", "1 2", "18446744073709551616"]).to_string()), T::some(T::C("TBad", vec![])), "bad"));
         reqs.push((k, Some((one_total + 1000).to_string()), tint(one_total as u128 + 1000, false), "beyond"));
+        reqs.push((k, Some("9999999999".into()), tint(9999999999, false), "beyond"));
         reqs.push((100_000, None, T::none(), "topk-large"));
-        // overflow of top_k.max(1) + offset_hint: debug builds panic (last: the handle is not reused after)
-        reqs.push((k, Some(u64::MAX.to_string()), tint(u64::MAX as u128, false), "hint-overflow"));
-        reqs.push((usize::MAX, Some("1".into()), tint(1, false), "hint-overflow"));
+        // top_k.max(1).saturating_add(offset_hint) (saturates since /repo 9b4da04; panicked in debug builds before):
+        // the model says InvalidCursor / a normal page, never a panic
+        reqs.push((k, Some(u64::MAX.to_string()), tint(u64::MAX as u128, false), "hint-saturates"));
+        reqs.push((usize::MAX, Some("1".into()), tint(1, false), "hint-saturates"));
+        reqs.push((usize::MAX, None, T::none(), "topk-max"));
         for (k, cursor, t_cursor, kind) in reqs {
             let got = search_caught(&mut b.mem, req(TERM, k, cursor.clone()));
             let output = match &got {
@@ -319,7 +322,7 @@ pub fn run(seed: u64, n: usize, tier: &str, w: &mut dyn std::io::Write) {
                 if p.hits.len() > k.max(1) { viol = Some("pagination-broken: a page holds more than top_k hits".to_string()); }
                 if let Some(nx) = &p.next { if nx.parse::<usize>().map(|x| x >= p.total).unwrap_or(true) { viol = Some(format!("pagination-broken: next_cursor {:?} with total_hits {}", nx, p.total)); } }
             }
-            if kind == "hint-overflow" && got.is_err() { /* arithmetic overflow panic: C22's subject, predicted by the model */ }
+            if got.is_err() { viol = Some(format!("search-panics: top_k {} cursor {:?}", k, cursor)); }
             let mut tags = corpus.tags.clone(); tags.push(kind.into());
             tags.push(match &got { Err(()) => "panic".into(), Ok(Err(e)) => format!("err{}", err_kind(e)), Ok(Ok(_)) => "ok".into() });
             let input = T::Tup(vec![t_cands.clone(), t_table.clone(), T::N(k as u128), t_cursor]);
